@@ -172,6 +172,8 @@ func (s *Sched) Run() *Violation {
 				if r := recover(); r != nil {
 					switch v := r.(type) {
 					case schedAbort:
+					case runAbort:
+						s.setAbort()
 					case *Violation:
 						if t.viol == nil {
 							t.viol = v
